@@ -495,3 +495,47 @@ func SynthGPOSDevice(gid, start, end, format int) []byte {
 	l.u16(0x5555, 0x5555, 0x5555, 0x5555)
 	return layoutTable("kern", [][]byte{l.b})
 }
+
+// SbixGlyph locates one glyph record of an 'sbix' strike in a plain sfnt image.
+type SbixGlyph struct {
+	GID    int
+	Off    int // file offset of the record (originOffsetX, originOffsetY, graphicType, data)
+	Length int // record length
+}
+
+// SbixGlyphs lists the non-empty glyph records of the first strike of the sbix table and
+// returns the number of glyphs of the font.
+func SbixGlyphs(img []byte) (glyphs []SbixGlyph, numGlyphs int) {
+	kind, tabs := ParseDirectory(img)
+	if kind != KindSfnt {
+		return nil, 0
+	}
+	var sbix, maxp *TableRef
+	for i := range tabs {
+		switch tabs[i].Tag {
+		case "sbix":
+			sbix = &tabs[i]
+		case "maxp":
+			maxp = &tabs[i]
+		}
+	}
+	if sbix == nil || maxp == nil || maxp.Offset+6 > len(img) || sbix.Offset+12 > len(img) {
+		return nil, 0
+	}
+	numGlyphs = int(binary.BigEndian.Uint16(img[maxp.Offset+4:]))
+	if binary.BigEndian.Uint32(img[sbix.Offset+4:]) == 0 {
+		return nil, numGlyphs
+	}
+	strike := sbix.Offset + int(binary.BigEndian.Uint32(img[sbix.Offset+8:]))
+	if strike+4+4*(numGlyphs+1) > len(img) {
+		return nil, numGlyphs
+	}
+	for g := 0; g < numGlyphs; g++ {
+		a := int(binary.BigEndian.Uint32(img[strike+4+4*g:]))
+		b := int(binary.BigEndian.Uint32(img[strike+4+4*g+4:]))
+		if b-a >= 10 && strike+b <= len(img) {
+			glyphs = append(glyphs, SbixGlyph{GID: g, Off: strike + a, Length: b - a})
+		}
+	}
+	return glyphs, numGlyphs
+}
